@@ -308,7 +308,9 @@ def run(ctx):
                         if x[0] == "in" and x[1] == rv + ".reltype" and x[3] is True:
                             names = ast.parse(P_.full(x[2], ival), mode="eval").body
                             if isinstance(names, (ast.Tuple, ast.List, ast.Set)):
-                                got |= {dotted(e) for e in names.elts}
+                                byval_ = {prog.const(ast.parse(w_, mode="eval").body, it.module): w_ for w_ in want}
+                                # (a class table may already have been folded to the relationship-type strings themselves)
+                                got |= {dotted(e) or byval_.get(prog.const(e, it.module), ast.unparse(e)) for e in names.elts}
                                 skips_on_mismatch = True
                             else:
                                 # a table of the class (`self._reltypes`), folded for this class and compared by value
